@@ -49,8 +49,8 @@ C10Variants  == AgreeObs(base, cur)
 \* ---- C11 on the observed outcomes
 C11Parse     == cur.oc \in {"value", "valueerror", "hang"}
 C11Accessors == cur.oc = "value" => (cur.acc \in {"ok", "hang"} /\ cur.uoc \in {"value", "hang"})
-C11Log       == cur.log \in {"ok", "hang"}
-C11Join      == cur.join \in {"ok", "valueerror", "hang"}
+C11Log       == cur.log \in {"ok", "hang", "none"}       \* "none": not called (parse itself hung)
+C11Join      == cur.join \in {"ok", "valueerror", "hang", "none"}
 C11Terminates == "hang" \notin {cur.oc, cur.acc, cur.uoc, cur.log, cur.join}
 
 B(p, n) == IF p THEN 0 ELSE n
